@@ -3,3 +3,20 @@
  * it is repeated here (trusted, listed in unit.json) so that the BER layer is verified without the rest of snmplib. */
 int snmp_errno = 0;
 void snmp_set_api_error(int x) { snmp_errno = x; }
+
+#ifdef CV_OWN_MEMCPY
+/* Assumed model of memcpy for the asn_parse_string target only: a plain byte loop (closed by a loop contract in loops.json).
+ * CBMC's built-in memcpy model (array_copy/array_replace of a symbolic number of bytes between objects of symbolic
+ * size) does not finish under --dfcc.  The loop body is safety-instrumented like the real code, so an out-of-bounds
+ * source or destination is reported inside this function. */
+#include <stddef.h>
+extern size_t g;
+void *memcpy(void *dst, const void *src, size_t n)
+{
+    unsigned char *d = (unsigned char *)dst;
+    const unsigned char *s = (const unsigned char *)src;
+    for (size_t i = 0; i < n; i++)
+        d[i] = s[i];
+    return dst;
+}
+#endif
